@@ -1,6 +1,8 @@
 //! Shared instrumentation for the correspondence harness: instrumented key / value types,
 //! hashers, a deterministic PRNG, thread-local call counters and an "armed panic" facility.
 
+pub mod trace;
+
 use lru_mem::HeapSize;
 use std::borrow::Borrow;
 use std::cell::{Cell, RefCell};
